@@ -25,11 +25,56 @@ VERUS = shutil.which('verus') or '/opt/veriftools/verus/verus'
 RLIMIT = os.environ.get('VX_RLIMIT', '30')
 
 
-def run_verus(path, rlimit=RLIMIT, seed=None):
+CACHE_DIR = '/var/tmp/vx-cache'
+_VERUS_VERSION = None
+
+
+def verus_version():
+    global _VERUS_VERSION
+    if _VERUS_VERSION is None:
+        try:
+            _VERUS_VERSION = subprocess.run([VERUS, '--version'], capture_output=True, text=True, timeout=60).stdout.strip()
+        except Exception:
+            _VERUS_VERSION = 'unknown'
+    return _VERUS_VERSION
+
+
+def run_verus(path, rlimit=RLIMIT, seed=None, use_cache=False):
+    """Run Verus on one generated file.  With use_cache (quick tier only) the verdict for a byte-identical
+    generated file (same Verus version, rlimit, seed) is reused: the generated text is a pure function of
+    /repo's working tree and /verif/units, and Verus/Z3 are deterministic for a given seed."""
     cmd = [VERUS, path, '--output-json', '--time', '--multiple-errors', '20',
            '--error-format=json', '--rlimit', str(rlimit)]
     if seed is not None:
         cmd += ['--smt-option', 'smt.random_seed=%d' % seed]
+    key = None
+    if use_cache and not os.environ.get('VX_NO_CACHE'):
+        h = hashlib.sha256()
+        h.update(open(path, 'rb').read())
+        h.update(('|%s|%s|%s|%s' % (verus_version(), rlimit, seed, os.path.basename(path))).encode())
+        key = os.path.join(CACHE_DIR, h.hexdigest() + '.json')
+        if os.path.exists(key):
+            try:
+                res = json.load(open(key))
+                res['cached'] = True
+                res['cmd'] = ' '.join(cmd)
+                return res
+            except Exception:
+                pass
+    res = _run_verus(cmd, path)
+    if key and not res.get('tool_error'):
+        try:
+            os.makedirs(CACHE_DIR, exist_ok=True)
+            tmp = key + '.tmp%d' % os.getpid()
+            with open(tmp, 'w') as f:
+                json.dump(res, f)
+            os.replace(tmp, key)
+        except Exception:
+            pass
+    return res
+
+
+def _run_verus(cmd, path):
     t0 = time.time()
     try:
         p = subprocess.run(cmd, capture_output=True, text=True, timeout=900, cwd=os.path.dirname(path))
